@@ -263,9 +263,9 @@ func main() {
 	// per-template accumulators (merged once per template: no contended atomics in the inner loop)
 	type local struct {
 		evals, judged, skipUndoc, skipNoGroup, skipStraddle, straddleDiffers, insideCases, changed int64
-		distinct                                                                                  map[string]struct{}
-		samples                                                                                   []any
-		violCount                                                                                 map[string]int
+		distinct                                                                                   map[string]struct{}
+		samples                                                                                    []any
+		violCount                                                                                  map[string]int
 	}
 	locals := make([]*local, len(templates))
 
